@@ -107,7 +107,7 @@ def random_program(rng, *, max_cleanups=4, kinds=RAISE_KINDS, p_raise=0.35, feat
             elif r < 0.72 and "patch" in feats:
                 acts.append(patch_action(rng, p))
             elif r < 0.80 and "fixture" in feats:
-                acts.append(fixture_action(rng, tok))
+                acts.append(fixture_action(rng, tok, "bad_fixture_detail" in feats))
             elif r < 0.90 and "details" in feats:
                 acts.append(detail_action(rng, tok, feats))
             elif r < 0.95 and "onexc" in feats:
@@ -138,9 +138,15 @@ def random_program(rng, *, max_cleanups=4, kinds=RAISE_KINDS, p_raise=0.35, feat
             p["own_skip"] = True
         elif r < 0.2:
             p["own_fail"] = True
+    if "force" in feats and rng.random() < 0.05:
+        p["force_attr"] = rng.choice(["class", "instance"])
+    if "onexc" in feats and rng.random() < 0.15:
+        p["onexc_pre"] = [tok("HP")]
     if "decor" in feats and rng.random() < 0.12:
         p["decor"] = rng.choice(["skip_method", "skip_class", "skipIf_true", "skipIf_false",
-                                 "skipUnless_false"])
+                                 "skipUnless_false", "stdlib_skip_method"])
+        if rng.random() < 0.3:
+            p["decor_reason"] = ""
     return p
 
 
@@ -198,10 +204,19 @@ def fixture_spec(rng, tok, depth=0):
         spec["setup"] = rng.choice(["error", "fail", "kbd"])
     elif r < 0.35:
         spec["cleanup"] = rng.choice(["error", "fail"])
+    if rng.random() < 0.3:
+        spec["live"] = True
     if depth < 1 and rng.random() < 0.25:
         spec["nested"] = fixture_spec(rng, tok, depth + 1)
     return spec
 
 
-def fixture_action(rng, tok):
-    return ["fixture", tok("X"), fixture_spec(rng, tok)]
+def fixture_action(rng, tok, bad_detail=False):
+    spec = fixture_spec(rng, tok)
+    if bad_detail and rng.random() < 0.3:
+        # only where testtools itself evaluates the detail (successful setUp -> gathering cleanup);
+        # a failing _setUp would make the fixtures library evaluate it before its own clean-up
+        spec["bad_detail"] = True
+        spec["setup"] = "ok"
+        spec.pop("nested", None)
+    return ["fixture", tok("X"), spec]
